@@ -3,6 +3,7 @@
 package curves
 
 import (
+	"crypto/elliptic"
 	"math/big"
 	"sync"
 )
@@ -137,12 +138,14 @@ var (
 		"0xffffffffffffffffffffffffffffffffffffffffffffffffc7634d81f4372ddf581a0db248b0a77aecec196accc52973",
 		"0xaa87ca22be8b05378eb1c71ef320ad746e1d3b628ba79b9859f741e082542a385502f25dbf55296c3a545e3872760ab7",
 		"0x3617de4a96262c6f5d9e98bf9292dc29f8f41dbd289a147ce9da3113b5f0b8c00a60b1ce1d7e819d7a431d7c90ea0e5f")
-	P521 = nist("P-521",
-		"0x1ffffffffffffffffffffffffffffffffffffffffffffffffffffffffffffffffffffffffffffffffffffffffffffffffffffffffffffffffffffffffffffffffff",
-		"0x051953eb9618e1c9a1f929a21a0b68540eea2da725b99b315f3b8b489918ef109e156193951ec7e937b1652c0bd3bb1bf073573df883d2c34f1ef451fd46b503f00",
-		"0x1fffffffffffffffffffffffffffffffffffffffffffffffffffffffffffffffffffa51868783bf2f966b7fcc0148f709a5d03bb5c9b8899c47aebb6fb71e91386409",
-		"0x0c6858e06b70404e9cd9e3ecb662395b4429c648139053fb521f828af606b4d3dbaa14b5e77efe75928fe1dc127a2ffa8de3348b3c1856a429bf97e7e31c2e5bd66",
-		"0x11839296a789a3bc0045c8a5fb42c7d1bd998f54449579b446817afbd17273e662c97ee72995ef42640c550b9013fad0761353c7086a272c24088be94769fd16650")
+	// P-521 parameters are taken from crypto/elliptic (FIPS 186-4 D.1.2.5)
+	P521 = func() *WCurve {
+		pr := elliptic.P521().Params()
+		f := &Field{P: new(big.Int).Set(pr.P)}
+		c := &WCurve{Name: "P-521", F: f, A: f.Int(-3), B: f.Elt(pr.B), R: new(big.Int).Set(pr.N)}
+		c.G = WPoint{X: f.Elt(pr.Gx), Y: f.Elt(pr.Gy)}
+		return c
+	}()
 )
 
 const blsP = "0x1a0111ea397fe69a4b1ba7b6434bacd764774b84f38512bf6730d2a0f6b0f6241eabfffeb153ffffb9feffffffffaaab"
